@@ -75,8 +75,8 @@ type c01Env struct {
 	m *ref.Matcher
 }
 
-// c01Build registers the routes in order on a fresh real tree and a fresh reference trie. It stops
-// at the first route the implementation rejects. usable=false when implementation and reference
+// c01Build registers the routes in order on a fresh real tree and a fresh reference trie; a route
+// both sides reject is simply not part of the registered set. usable=false when implementation and reference
 // disagree on a registration verdict (that is C08's finding, not C01's) or a shape is unclassified.
 func c01Build(rs []catRoute) (tree route.Tree, trie *ref.Trie, registered []int, usable bool) {
 	tree = route.NewTree()
@@ -88,7 +88,9 @@ func c01Build(rs []catRoute) (tree route.Tree, trie *ref.Trie, registered []int,
 			return tree, trie, registered, false
 		}
 		if err != nil {
-			break
+			// rejected: not part of the registered set; the history goes on (an application may recover from
+			// the registration panic) and the rejected route must not take part in dispatch
+			continue
 		}
 		trie.Add(r.Ref)
 		registered = append(registered, i)
@@ -193,10 +195,13 @@ func c01Configs(r *core.Run, cat []catRoute, k int, paths []string, label string
 				l.Extra["configs_skipped_registration_verdict_differs(C08)"]++
 				continue
 			}
-			if len(reg) < k {
-				// a prefix of this tuple is what is registered; that shorter tuple is enumerated on its own
-				l.Extra["configs_with_rejected_route(prefix covered elsewhere)"]++
+			if len(reg) == 0 {
 				continue
+			}
+			if len(reg) < k {
+				// some registration of the tuple was rejected: the registered set is the rest, and the rejected
+				// attempt must have left nothing behind that takes part in dispatch
+				l.Extra["configs_with_a_rejected_registration"]++
 			}
 			l.States++
 			for pi, p := range paths {
@@ -376,7 +381,7 @@ func c01Run(r *core.Run) {
 	r.Rule = "engine E: every ordered tuple of distinct catalogue routes registered on a fresh route.Tree (and Flame for the method dimension) x every path; oracle = declarative admission (found iff some form admits) AND the documented priority procedure over a reference trie (winner equality); non-trivial = (set,path) admitted by >=2 registered forms or won after back-tracking out of a higher-ranked branch"
 	var maxSegs, pathSegs, pairPathSegs int
 	if r.Thorough() {
-		r.SetBudget(12 * time.Minute)
+		r.SetBudget(14 * time.Minute)
 		maxSegs, pathSegs, pairPathSegs = 3, 4, 3
 	} else {
 		r.SetBudget(70 * time.Second)
@@ -411,7 +416,7 @@ func c01Run(r *core.Run) {
 	if r.Thorough() {
 		c01Configs(r, small, 2, pathsLong, "pairs(2seg catalogue, long paths)")
 		c01Configs(r, reduced, 3, pathsPair, "triples(reduced)")
-		c01Configs(r, full, 2, pathsPair, "pairs(full)")
+		c01Configs(r, full, 2, pathsOver(alpha, 2, specials), "pairs(full catalogue, paths<=2 segments)")
 		q := reduced
 		if len(q) > 24 {
 			q = q[:24]
@@ -448,7 +453,7 @@ func c01Replay(raw json.RawMessage) (bool, string) {
 	env := &c01Env{m: ref.NewMatcher()}
 	if len(c.Method) == 0 {
 		tree, trie, reg, usable := c01Build(cat)
-		if !usable || len(reg) != len(cat) {
+		if !usable || len(reg) == 0 {
 			return false, "configuration not registrable as recorded"
 		}
 		badDesc, _, _, _ := c01Eval(env, tree, trie, c.Path)
